@@ -38,7 +38,13 @@ pub fn c01_isolation(cx: &mut Ctx) {
                 let mode = h.clients.get(&c).map(|cr| cx.pool_mode(&cr.database, &cr.user)).unwrap_or_default();
                 if let Some(so) = session_owner {
                     if so != c {
-                        let prev_done = h.clients.get(&so).map(|p| p.finished && p.finished_seq < u.first_seq).unwrap_or(true);
+                        // gone = finished, or already in the act of leaving (its Terminate / socket
+                        // close step began before this unit arrived: the pooler may have seen it first)
+                        let prev_done = h
+                            .clients
+                            .get(&so)
+                            .map(|p| (p.finished && p.finished_seq < u.first_seq) || p.steps.iter().any(|s| (s.op == "terminate" || s.op == "drop" || s.outcome == StepOutcome::Cut) && s.start_seq < u.first_seq))
+                            .unwrap_or(true);
                         if !prev_done {
                             cx.v("C01", "session_conn_shared", "C01/session_conn_shared", u.first_seq, format!("backend conn {} (pid {}): client {} used it while session-mode client {} was still connected", ci, conn.pid, c, so));
                         }
